@@ -24,10 +24,20 @@ type DirPlan struct {
 	// WriteDelayUs: simulated time each Write call blocks before returning
 	// (transport pacing); 0/absent: Write returns at once.
 	WriteDelayUs []int `json:"wdelay_us,omitempty"`
-	// Coalesce: hold back a write's delivery until this many further writes
-	// happened or the writer blocks/reads (not modelled: kept simple) -- unused.
+	// Coalesce: one entry per Write call (tape, read cyclically by write index).
+	// A value > 0 merges the first segment of that write into the segment
+	// scheduled last in this direction if that segment is still undelivered
+	// (TCP coalescing of back-to-back writes: the receiver finds the bytes of
+	// both writes in one read). Absent/0: every segment is its own delivery.
+	Coalesce []int `json:"coalesce,omitempty"`
 	// Edits alter the byte stream in flight (offsets count bytes written by the sender).
 	Edits []Edit `json:"edits,omitempty"`
+}
+
+// pendSeg is a scheduled, possibly not yet delivered segment (guarded by dir.mu).
+type pendSeg struct {
+	data []byte
+	done bool
 }
 
 // Edit is an in-flight alteration at a sender-side stream offset.
@@ -80,6 +90,7 @@ type dir struct {
 	lastSched time.Duration
 	inflight  int // bytes scheduled but not yet delivered (or dropped)
 	wclosed   bool
+	lastSeg   *pendSeg // segment scheduled last (Coalesce)
 
 	// receiver side
 	buf       []byte
@@ -242,6 +253,7 @@ func (d *dir) write(p []byte) (int, error) {
 	wi := d.writeIdx
 	d.writeIdx++
 	// split into segments and schedule each at its own instant
+	merge := core.TapeAt(d.plan.Coalesce, wi, 0) > 0
 	for len(data) > 0 {
 		sz := core.TapeAt(d.plan.Seg, d.segIdx, 0)
 		d.segIdx++
@@ -250,6 +262,14 @@ func (d *dir) write(p []byte) (int, error) {
 		}
 		seg := append([]byte(nil), data[:sz]...)
 		data = data[sz:]
+		if merge {
+			merge = false
+			if ps := d.lastSeg; ps != nil && !ps.done {
+				ps.data = append(ps.data, seg...)
+				d.inflight += len(seg)
+				continue
+			}
+		}
 		lat := time.Duration(core.TapeAt(d.plan.LatUs, d.segIdx, 100)) * time.Microsecond
 		if lat < 0 {
 			lat = 0
@@ -259,7 +279,9 @@ func (d *dir) write(p []byte) (int, error) {
 			base = d.lastSched
 		}
 		d.inflight += len(seg)
-		at := d.sim.AtAbs(base+lat, func() { d.deliver(seg) })
+		ps := &pendSeg{data: seg}
+		d.lastSeg = ps
+		at := d.sim.AtAbs(base+lat, func() { d.deliver(ps) })
 		d.lastSched = at
 	}
 	d.mu.Unlock()
@@ -269,8 +291,10 @@ func (d *dir) write(p []byte) (int, error) {
 	return n, nil
 }
 
-func (d *dir) deliver(seg []byte) {
+func (d *dir) deliver(ps *pendSeg) {
 	d.mu.Lock()
+	ps.done = true
+	seg := ps.data
 	if d.dead {
 		d.mu.Unlock()
 		return
